@@ -28,6 +28,14 @@ def invariant(qualname):
     return deco
 
 
+def opaque(fn):
+    """
+    Marks a spec function over scalars whose applications the verifier keeps folded: F(args) plus the
+    definitional fact F(args) == body.  Natively the function itself.
+    """
+    return fn
+
+
 def pow2(k):
     if k < 0:
         raise ValueError('pow2 of a negative exponent')
